@@ -117,7 +117,17 @@ COMP = {"nothing": "FillRequest(falsy-values)", "falsyres": "FillRequest(falsy-r
         "store": "FillRequest(StoreFilled)", "store1": "FillRequest(StoreFilled)"}
 
 
+def firsts(res):
+    """Contents carried by the first result of every element request, concatenated."""
+    out = []
+    for r in res:
+        if isinstance(r, dict) and r.get("i") == 1:
+            out += r["p"]
+    return out
+
+
 def _drive(guard, comp, agg, cfg, h, variant, record, obj, el, proj, nrm):
+    kreq = 0
     # the odd values are rotated from schedule to schedule: every one of them occurs at every position
     rot = sum(ord(c) for c in "".join(o["op"] for o in h)) + cfg["n"] + 2 * cfg["bufIn"] + 4 * cfg["reset"]
     vm = (lambda i: fl.nothing(i + rot)) if variant == "nothing" else None
@@ -157,6 +167,16 @@ def _drive(guard, comp, agg, cfg, h, variant, record, obj, el, proj, nrm):
             agg.fail(comp, call, "accounted", cfg, sched, {"variant": variant, "element_fill_log": el.fill_log,
                                                            "values_filled": k})
             return False
+        if call == "request" and cfg["yor"] and cfg["reset"] and cfg["m"] in (1, 2, 3) and vm is None and \
+                variant in ("content", "aslist", "seq"):
+            # every value filled since the last request is in exactly one yielded result
+            got = firsts(val)
+            if got != list(range(kreq, k)):
+                agg.fail(comp, call, "accounted-in-results", cfg, sched,
+                         {"variant": variant, "values_since_last_request": list(range(kreq, k)), "in_results": got})
+                return False
+        if call == "request":
+            kreq = k
         if call == "request" and not cfg["yor"]:
             exp = proj(op["res"]) if vm is None else \
                 [repr({"i": r["i"], "p": [vm(x) for x in r["p"]]}) for r in op["res"]]
@@ -195,9 +215,9 @@ def variants_for(cfg, thorough):
     if cfg["kind"] == "fc" and cfg["m"] == 1:
         vs += ["sum", "store", "store1"]
     if (cfg["kind"] == "fr" and cfg["m"] == 2) or (cfg["kind"] in ("fc", "frc") and cfg["m"] == 1) or \
-            (thorough and cfg["m"] > 0 and cfg["kind"] in ("fr", "fc", "frc")):
+            (thorough and cfg["m"] in (1, 2) and cfg["kind"] in ("fr", "fc", "frc")):
         vs.append("nothing")
-    if cfg["kind"] == "fr" and (cfg["m"] == 1 or (thorough and cfg["m"] > 0)):
+    if cfg["kind"] == "fr" and (cfg["m"] == 1 or (thorough and cfg["m"] in (1, 2))):
         vs.append("falsyres")
     return vs
 
@@ -247,6 +267,16 @@ def check_whole(agg, comp, call, cfg, label, st, val, expected, compare=True, ex
         agg.fail(comp, call, "results", cfg, label, dict(d, expected=expected, observed=val))
         return False
     return True
+
+
+def mark_value(v):
+    return ("MARK", v)
+
+
+def norm_or_mark(v):
+    if isinstance(v, tuple) and len(v) == 2 and v[0] == "MARK":
+        return {"mark": v[1]}
+    return fl.norm(v)
 
 
 def split_object(cfg, bs, form, holder):
@@ -351,11 +381,29 @@ def replay_run(ctx, agg, rec, thorough):
             if good and holder and not in_order(holder[0].fill_log, n_values):
                 agg.fail("Split[%s]" % form, "run", "accounted", cfg, label, {"element_fill_log": holder[0].fill_log})
                 good = False
+            if good and cfg["yor"] and cfg["reset"] and cfg["m"] in (1, 2, 3) and firsts(val) != list(range(n_values)):
+                agg.fail("Split[%s]" % form, "run", "accounted-in-results", cfg, label, {"in_results": firsts(val)})
+                good = False
             if good and cfg["yor"] and holder and len(holder[0].fill_log) != n_values:
                 agg.fail("Split[%s]" % form, "run", "accounted", cfg, label, {"element_fill_log": holder[0].fill_log})
                 good = False
             ok &= good
             ctx.case(["split", form, cfg, n_values, bs], nontrivial=n_values > 0)
+        # results must appear buffer by buffer: a second branch marks every value of the buffer just processed
+        if not cfg["yor"] and "per" in sp and (n_values + (0 if bs == NONE else bs)) % 2 == 0 and \
+                not agg.skip("Split[two-branches]", cfg):
+            blocks = [list(range(n_values))] if bs == NONE else \
+                [list(range(a, min(a + bs, n_values))) for a in range(0, n_values, bs)]
+            expected = []
+            for j, res in enumerate(sp["per"]):
+                expected += res
+                if n_values:
+                    expected += [{"mark": v} for v in blocks[j]]
+            st, val = run_whole(lambda: lena.core.Split([fl.build_fr(cfg)[0], mark_value],
+                                                        bufsize=None if bs == NONE else bs), n_values, norm_or_mark)
+            label = "N=%d:bs=%s" % (n_values, "None" if bs == NONE else bs)
+            ok &= check_whole(agg, "Split[two-branches]", "run", cfg, label, st, val, expected)
+            ctx.case(["split2", cfg, n_values, bs], nontrivial=n_values > 0)
     if not cfg["yor"]:
         for j, sq in enumerate(rec["seq"]):
             for form in ("bare", "tuple", ("onetuple", "twofr", "twofr")[(j + n_values) % 3]):
@@ -443,7 +491,7 @@ def misc(ctx):
 # ------------------------------------------------------------------ random scenarios (C2S)
 def random_cfg(rnd, kinds):
     return {"n": rnd.choice([1, 2, 3, 4, 5, 6, 8]), "bufIn": rnd.random() < 0.5, "reset": rnd.random() < 0.5,
-            "yor": rnd.random() < 0.25, "kind": rnd.choice(kinds), "m": rnd.choice([0, 1, 1, 2, 3]), "pv": False,
+            "yor": rnd.random() < 0.25, "kind": rnd.choice(kinds), "m": rnd.choice([0, 1, 1, 2, 3, 9]), "pv": False,
             "take": 0}
 
 
